@@ -265,6 +265,18 @@ def scale_scenario(cfg):
             g = M.gaussian_noise_scale(l2, eps, V.real("delta", "p"))
             sig = SR(z3.Real("sigma_ana!%d" % len(ST.events)), None, "p")      # the value the autodp stand-in handed out
             T.append(("gaussian_noise_scale", g, (2 * l2 if cfg["bounded"] else l2) * sig))
+        if True:
+            # two mechanisms with different adjacency flags in one process, same arguments, both orders: no state may be shared
+            for first in (False, True):
+                l2b, epsb, delb = V.real("l2b", "p"), V.real("epsb", "p"), V.real("deltab", "p")
+                if not V.symbolic:
+                    delb = min(0.5, delb * 0.1)
+                for flag in (first, not first):
+                    Mx = mech_mod.Mechanism(1.0, 0.0, flag, prng=rec)
+                    gx = Mx.gaussian_noise_scale(l2b, epsb, delb)
+                    sigx = SR(z3.Real("sigma_ana!%d" % len(ST.events)), None, "p") if V.symbolic else shims.fake_sigma(epsb, delb)
+                    T.append(("gaussian_noise_scale:first%d:bounded%d" % (first, flag), gx, (2 * l2b if flag else l2b) * sigx))
+                    T.append(("laplace_noise_scale:first%d:bounded%d" % (first, flag), Mx.laplace_noise_scale(l2b, epsb), (2 * l2b if flag else l2b) / epsb))
         s = V.real("s", "p")
         M.gaussian_noise(s, 3)
         M.laplace_noise(s, 2)
